@@ -221,6 +221,9 @@ func flipCase(g *G, s string) string {
 var revAll = []string{"rip", "rpfx", "rext"}
 
 func genC04(g *G) {
+	for _, in := range longIDNNames() {
+		emitRev(g, []string{"rip", "rpfx", "rext"}, in)
+	}
 	// addresses -> names -> back, in several spellings
 	octs := []byte{0, 1, 9, 10, 99, 100, 199, 200, 255}
 	roundTrip := func(ip []byte) {
@@ -316,6 +319,9 @@ func genC04(g *G) {
 }
 
 func genC05(g *G) {
+	for _, in := range longIDNNames() {
+		emitRev(g, []string{"rpfx", "rext"}, in)
+	}
 	v4Shapes := []string{"0", "1", "9", "10", "99", "100", "255", "256", "00", "01", "001", "a", "1a", "", "-1", "+1", "１", "000", "0255"}
 	v6Shapes := []string{"0", "a", "F", "g", "ab", "0x", "", "9", "f"}
 	roots4 := []string{"in-addr.arpa", "IN-ADDR.ARPA", "İn-addr.arpa", "in-addr.arpa.", "in-addr.arpa.."}
